@@ -128,3 +128,131 @@ pub proof fn lemma_fold_error_from(ls: Seq<Seq<char>>, k: int, indent: Seq<char>
 {
     if cram_fold(ls, k, indent, c) is None { lemma_fold_error(ls, k, ls.len() as int, indent, c); }
 }
+
+// ------------------------------------------------------------------ what the statement of C07 says about `cram_doc`
+/// an indented `$ ` line that is not a comment: "one test case per two-space-indented `$` command"
+pub open spec fn is_cmd_line(l: Seq<char>, indent: Seq<char>) -> bool {
+    !hash_comment(l) && l.len() > 0 && is_prefix_of(indent, l) && is_prefix_of(dollar(), l.subrange(indent.len() as int, l.len() as int))
+}
+pub open spec fn cmd_count(ls: Seq<Seq<char>>, k: int, indent: Seq<char>) -> int decreases k {
+    if k <= 0 { 0 } else { cmd_count(ls, k - 1, indent) + (if is_cmd_line(ls[k - 1], indent) { 1int } else { 0int }) }
+}
+/// a title line: not a comment, not empty, not indented
+pub open spec fn is_title_line(l: Seq<char>, indent: Seq<char>) -> bool { !hash_comment(l) && l.len() > 0 && !is_prefix_of(indent, l) }
+/// the nearest title line before position k (None: there is none)
+pub open spec fn nearest_title(ls: Seq<Seq<char>>, k: int, indent: Seq<char>) -> Option<Seq<char>> decreases k {
+    if k <= 0 { None } else if is_title_line(ls[k - 1], indent) { Some(ls[k - 1]) } else { nearest_title(ls, k - 1, indent) }
+}
+/// state invariant of the fold, in the statement's terms: as many test cases (finished + the one being collected) as command
+/// lines so far; every finished one has the Cram defaults, a 1-based line number of an earlier command line, in increasing order
+pub open spec fn cram_wf(s: LpS, ls: Seq<Seq<char>>, k: int, indent: Seq<char>) -> bool {
+    &&& s.multi
+    &&& s.done.len() + (if s.cmd.len() > 0 { 1int } else { 0int }) == cmd_count(ls, k, indent)
+    &&& forall|j: int| 0 <= j < s.done.len() ==> cram_config_ok((#[trigger] s.done[j]).config) && 1 <= s.done[j].line <= k
+            && is_cmd_line(ls[s.done[j].line - 1], indent)
+    &&& forall|i: int, j: int| 0 <= i < j < s.done.len() ==> (#[trigger] s.done[i]).line < (#[trigger] s.done[j]).line
+    &&& s.cmd.len() > 0 ==> s.start is Some && s.start->0 < k && is_cmd_line(ls[s.start->0 as int], indent)
+            && (s.config is Some && cram_config_ok(s.config->0))
+            && forall|j: int| 0 <= j < s.done.len() ==> (#[trigger] s.done[j]).line <= s.start->0
+    &&& s.cmd.len() == 0 ==> s.start is None
+}
+proof fn lemma_end_wf(s: LpS, ls: Seq<Seq<char>>, k: int, indent: Seq<char>, idx: int)
+    requires cram_wf(s, ls, k, indent), s_end(s, idx) is Some,
+    ensures ({ let t = s_end(s, idx)->0; t.multi && t.cmd.len() == 0 && t.start is None
+        && t.done.len() == s.done.len() + (if s.cmd.len() > 0 { 1int } else { 0int })
+        && (forall|j: int| 0 <= j < t.done.len() ==> cram_config_ok((#[trigger] t.done[j]).config) && 1 <= t.done[j].line <= k && is_cmd_line(ls[t.done[j].line - 1], indent))
+        && (forall|i: int, j: int| 0 <= i < j < t.done.len() ==> (#[trigger] t.done[i]).line < (#[trigger] t.done[j]).line) }),
+{
+    let t = s_end(s, idx)->0;
+    if s.cmd.len() > 0 {
+        let tc = s_testcase(s, idx);
+        assert(t.done =~= s.done.push(tc));
+        assert(tc.line == s.start->0 + 1);
+        assert forall|j: int| 0 <= j < t.done.len() implies cram_config_ok((#[trigger] t.done[j]).config) && 1 <= t.done[j].line <= k && is_cmd_line(ls[t.done[j].line - 1], indent) by {
+            if j < s.done.len() { assert(t.done[j] == s.done[j]); }
+        }
+        assert forall|i: int, j: int| 0 <= i < j < t.done.len() implies (#[trigger] t.done[i]).line < (#[trigger] t.done[j]).line by {
+            assert(t.done[i] == s.done[i]);
+            if j < s.done.len() { assert(t.done[j] == s.done[j]); }
+        }
+    }
+}
+/// the invariant is preserved by every line (the statement-level reading of the format follows from the line semantics)
+pub proof fn lemma_cram_wf(ls: Seq<Seq<char>>, k: int, indent: Seq<char>, c: TestCaseConfig)
+    requires 0 <= k <= ls.len(), ls.len() <= usize::MAX, cram_config_ok(c), cram_fold(ls, k, indent, c) is Some,
+    ensures cram_wf(cram_fold(ls, k, indent, c)->0, ls, k, indent),
+    decreases k
+{
+    if k > 0 {
+        assert(cram_fold(ls, k - 1, indent, c) is Some);
+        let s = cram_fold(ls, k - 1, indent, c)->0;
+        lemma_cram_wf(ls, k - 1, indent, c);
+        let l = ls[k - 1];
+        assert(cram_fold(ls, k, indent, c) == cram_step(s, l, k - 1, indent, c));
+        let t = cram_step(s, l, k - 1, indent, c)->0;
+        assert(cmd_count(ls, k, indent) == cmd_count(ls, k - 1, indent) + (if is_cmd_line(l, indent) { 1int } else { 0int }));
+        if hash_comment(l) {
+            assert(t == s); assert(!is_cmd_line(l, indent));
+            assert(cram_wf(t, ls, k, indent));
+        } else if l.len() == 0 {
+            assert(!is_cmd_line(l, indent));
+            if s_has_body(s) { lemma_end_wf(s, ls, k - 1, indent, k - 1); assert(cram_wf(t, ls, k, indent)); }
+            else { assert(t == s); assert(cram_wf(t, ls, k, indent)); }
+        } else if is_prefix_of(indent, l) {
+            let b = l.subrange(indent.len() as int, l.len() as int);
+            let u = s_body(s, b, k - 1)->0;
+            assert(t == LpS { config: Some(c), ..u });
+            if (s.multi || s.cmd.len() == 0) && is_prefix_of(dollar(), b) {
+                assert(is_cmd_line(l, indent));
+                let s0 = LpS { in_cmd: true, ..s };
+                assert(cram_wf(s0, ls, k - 1, indent));
+                if s.cmd.len() > 0 {
+                    lemma_end_wf(s0, ls, k - 1, indent, k - 1);
+                    let s1 = s_end(s0, k - 1)->0;
+                    assert(u.done == s1.done);
+                    assert(u.cmd.len() == 1);
+                    assert(u.start == Some((k - 1) as usize));
+                } else {
+                    assert(u.done == s.done);
+                    assert(u.start == Some((k - 1) as usize));
+                }
+                assert(cram_wf(t, ls, k, indent));
+            } else {
+                assert(!is_cmd_line(l, indent));
+                assert(s.multi);
+                assert(!is_prefix_of(dollar(), b));
+                assert(u.done == s.done);
+                assert(u.start == s.start);
+                assert((u.cmd.len() > 0) == (s.cmd.len() > 0));
+                assert(cram_wf(t, ls, k, indent));
+            }
+        } else {
+            assert(!is_cmd_line(l, indent));
+            lemma_end_wf(s, ls, k - 1, indent, k - 1);
+            assert(cram_wf(t, ls, k, indent));
+        }
+    }
+}
+/// C07, statement level: an accepted document yields exactly one test case per command line, in document order, each
+/// with the Cram defaults and the 1-based number of its `$` line
+pub proof fn lemma_cram_doc(ls: Seq<Seq<char>>, indent: Seq<char>, c: TestCaseConfig)
+    requires cram_config_ok(c), ls.len() <= usize::MAX, cram_doc(ls, indent, c) is Some,
+    ensures ({ let d = cram_doc(ls, indent, c)->0;
+        d.len() == cmd_count(ls, ls.len() as int, indent)
+        && (forall|j: int| 0 <= j < d.len() ==> cram_config_ok((#[trigger] d[j]).config) && 1 <= d[j].line <= ls.len() && is_cmd_line(ls[d[j].line - 1], indent))
+        && (forall|i: int, j: int| 0 <= i < j < d.len() ==> (#[trigger] d[i]).line < (#[trigger] d[j]).line) }),
+{
+    let n = ls.len() as int;
+    let s = cram_fold(ls, n, indent, c)->0;
+    lemma_cram_wf(ls, n, indent, c);
+    if s_has_body(s) {
+        let s2 = LpS { config: Some(c), ..s };
+        assert(cram_wf(s2, ls, n, indent));
+        lemma_end_wf(s2, ls, n, indent, n);
+    }
+}
+
+/// the title of the test whose `$` line is at position pos: the nearest preceding title line, "" if there is none
+pub open spec fn title_ok(title: Seq<char>, ls: Seq<Seq<char>>, pos: int, indent: Seq<char>) -> bool {
+    title == (match nearest_title(ls, pos, indent) { Some(t) => t, None => Seq::<char>::empty() })
+}
